@@ -2,12 +2,12 @@
      canon_T bytes = Serialize::serialize(Deserialize::deserialize(bytes)?)
    Hand-written, executable; no proofs here.  External libraries are Section variables (oracles):
      pt_ok    33-byte Pedersen commitments / generators (as in C01)          pk_ok     secp256k1 PublicKey::from_slice (33 or 65 bytes)
-     xonly_ok XOnlyPublicKey::from_slice (32 bytes)                           btctx_ok  bitcoin::consensus::deserialize::<bitcoin::Transaction>
-     xpub_ok  bitcoin::bip32::Xpub::decode (78 bytes)                         Hrip, Hsha, Hh160, Hh256  the four preimage hashes
-   For bitcoin::Transaction and Xpub the model ASSUMES that re-serialisation gives back the accepted bytes (trusted base). *)
+     xonly_ok XOnlyPublicKey::from_slice (32 bytes)                           Hrip, Hsha, Hh160, Hh256  the four preimage hashes
+   bitcoin::Transaction (peg-in tx) is the concrete codec of Model/BtcTx.v; Xpub is its 78-byte framing with only the validity
+   of the embedded compressed key left to the public-key oracle. *)
 From Coq Require Import List Arith NArith Bool.
 From Coq.Strings Require Import Byte.
-From EV Require Import Base.Bytes Base.Codec Gen.Tables Model.Tx Model.Taproot Model.PsetRaw.
+From EV Require Import Base.Bytes Base.Codec Gen.Tables Model.Tx Model.BtcTx Model.Taproot Model.PsetRaw.
 Import ListNotations.
 Open Scope N_scope.
 
@@ -41,9 +41,11 @@ Definition ty_of_name (name : bytes) : vty := ty_lookup ty_names name.
 Section VALUES.
 Variable maxvec : N.
 Variables cap_txin cap_txout cap_vecu8 cap_h32 : N.
-Variables pt_ok pk_ok xonly_ok btctx_ok xpub_ok : bytes -> bool.
+Variables pt_ok pk_ok xonly_ok : bytes -> bool.
 Variables Hrip Hsha Hh160 Hh256 : bytes -> bytes.
 
+Definition xpub_main : bytes := [x04; x88; xb2; x1e].     (* VERSION_BYTES_MAINNET_PUBLIC *)
+Definition xpub_test : bytes := [x04; x35; x87; xcf].     (* VERSION_BYTES_TESTNETS_PUBLIC *)
 Definition len_is (k : nat) (b : bytes) : bool := Nat.eqb (length b) k.
 Definition guard (c : bool) (b : bytes) : pres bytes := if c then POk b else PErr EInvalid.
 Definition via {A} (c : codec A) (b : bytes) : pres bytes :=     (* encode::deserialize then encode::serialize *)
@@ -133,8 +135,10 @@ Definition vcanon (t : vty) (k v : bytes) : pres bytes :=
   | TyGenerator => guard (conf_wf pt_ok 10 11 v) v
   | TyRangeProof => guard (rangeproof_ok v) v
   | TySurjProof => guard (surjproof_ok v) v
-  | TyBtcTx => guard (btctx_ok v) v
-  | TyXpub => guard (len_is 78 v && xpub_ok v) v
+  (* bitcoin::consensus::deserialize reads through `take(MAX_VEC_SIZE)` and demands full consumption: at most MAX_VEC_SIZE bytes *)
+  | TyBtcTx => if N.of_nat (length v) <=? maxvec then via (c_btctx maxvec) v else PErr EInvalid
+  (* Xpub::decode: 78 bytes, mainnet or testnet version bytes, a valid compressed key in the last 33 bytes; encode writes the same fields *)
+  | TyXpub => guard (len_is 78 v && (bytes_eqb (firstn 4 v) xpub_main || bytes_eqb (firstn 4 v) xpub_test) && len_is 33 (skipn 45 v) && pk_ok (skipn 45 v)) v
   | TyEmpty => guard (len_is 0 v) v
   | TyPreRip => preimage Hrip k v
   | TyPreSha => preimage Hsha k v
@@ -155,7 +159,6 @@ Definition proj_pubkey (k : bytes) : list bytes :=
   else [[x00]; n2b (2 + b2n (last k x00) mod 2) :: firstn 32 (skipn 1 k); k].
 (* Xpub { network, depth, parent_fingerprint, child_number, public_key, chain_code }: derived Ord in field order;
    NetworkKind::Main < Test; ChildNumber Normal < Hardened then index = the big-endian bytes *)
-Definition xpub_main : bytes := [x04; x88; xb2; x1e].
 Definition proj_xpub (k : bytes) : list bytes :=
   [ [if bytes_eqb (firstn 4 k) xpub_main then x00 else x01]; firstn 1 (skipn 4 k); firstn 4 (skipn 5 k); firstn 4 (skipn 9 k);
     firstn 33 (skipn 45 k); firstn 32 (skipn 13 k); k ].
